@@ -38,7 +38,7 @@ TraceNext ==
   /\ \/ /\ Ev.a = "B" /\ Ev.k \in Borrowers
         /\ \/ BStart(Ev.k) \/ BBorrow(Ev.k) \/ BSpawn(Ev.k) \/ BSpawned(Ev.k) \/ BRetDiscard(Ev.k)
            \/ (\E z \in BOOLEAN : BRetD(Ev.k, z))
-           \/ (Ev.kind \in Kinds /\ \E z \in BOOLEAN : BUseD(Ev.k, Ev.kind, z))
+           \/ (Ev.kind \in Kinds /\ \E z \in BOOLEAN, im \in IntrModes : BUseD(Ev.k, Ev.kind, z, im))
         /\ BLabel(bpc'[Ev.k]) = Ev.lab
      \/ Ev.a = "R" /\ (RWake \/ RReap) /\ RLabel(rpc') = Ev.lab
      \/ Ev.a = "C" /\ (CStart \/ CJoin \/ CDrain) /\ CLabel(cpc') = Ev.lab
